@@ -246,7 +246,10 @@ class Function:
         self.name = m.group(1).strip('"')
         self.params = []; self.param_types = []; self.sret = None
         pre = line[:m.start()]
-        self.ret_type = take_type(re.sub(r'^define\s+((?:[a-z_]+(?:\([^)]*\))?\s+)*)', '', pre).strip() or "void")[0] if True else None
+        try:
+            self.ret_type = take_type(re.sub(r'^define\s+((?:[a-z_]+(?:\([^)]*\))?\s+|align \d+\s+)*)', '', pre).strip() or "void")[0]
+        except Unsupported:
+            self.ret_type = None
         args = m.group(2).strip()
         if args:
             for a in split_top(args):
